@@ -323,3 +323,15 @@ def check(ctx):
     oks = bool(tnow) and bool(arm_) and all(u(e_["L"]) == u(arm_[0][1]["L"]) for _, e_ in tnow) and bool(ctx.sites(timeout, f"{u(arm_[0][1]['L'])} = get_running_loop()"))
     ctx.ob("R06-g", timeout, "the deadline is compared with and armed on the clock of the running loop", oks,
            detail="" if oks else "CancelScope._timeout does not use one `loop = get_running_loop()` for both `loop.time()` and `loop.call_at`", by=("loop.time() / loop.call_at",))
+
+    # ---- R06-h "the timeout helpers report faithfully": whether a timed-out scope catches its cancellation (cancelled_caught, hence
+    # TimeoutError from fail_after) is decided by the classifier that recognises AnyIO's cancellations, also behind a re-raised
+    # CancelledError (shared with C01/R01-h)
+    from .common import classifier_total
+    classifier_total(ctx, "R06-h")
+
+    # ---- R06-i "a timeout is never missed": a task that joins a scope whose deadline has already expired (a task group child, a
+    # coroutine run from a worker thread) is reached by that cancellation - delivery is restarted for the scope it joins, the scope
+    # itself included (shared with C03/R03-i)
+    from .walkers import join_restarts
+    join_restarts(ctx, "R06-i", ("TaskGroup._spawn", "AsyncIOBackend.run_async_from_thread.task_wrapper"), 2)
